@@ -383,6 +383,32 @@ fn gen_prog(rng: &mut Rng, ill: bool) -> Program {
     p
 }
 
+/// in a quarter of the programs the functions carry, in the TEXT, an index other than their position (as a function
+/// cloned out of another program does, or none at all): `add_function` must give them the next free index of the program
+/// they are added to, and every owned location must be relative to that
+fn stale_indices(rng: &mut Rng, ps: String) -> String {
+    if !rng.chance(1, 4) {
+        return ps;
+    }
+    let mut out = String::new();
+    for (k, part) in ps.split("(fn ").enumerate() {
+        if k == 0 {
+            out.push_str(part);
+            continue;
+        }
+        // part = "<addr> <index> <rest…>"
+        let mut it = part.splitn(3, ' ');
+        let (addr, idx, rest) = (it.next().unwrap_or(""), it.next().unwrap_or(""), it.next().unwrap_or(""));
+        let new_idx = match rng.below(3) {
+            0 => "-".to_string(),
+            1 => format!("{}", idx.parse::<u64>().unwrap_or(0) + 1 + rng.below(3)),
+            _ => idx.to_string(),
+        };
+        out.push_str(&format!("(fn {} {} {}", addr, new_idx, rest));
+    }
+    out
+}
+
 fn prog_addresses(rng: &mut Rng, p: &Program) -> Vec<u64> {
     let mut present: Vec<u64> = Vec::new();
     for f in p.functions() {
@@ -435,7 +461,7 @@ fn generate(tier: Tier, rng: &mut Rng, em: &mut Emit) {
         em.case(&format!("rtf/{}", sh), format!("rtf {}", fs));
         // program-level requests
         let p = gen_prog(rng, ill);
-        let ps = program_str(&p);
+        let ps = stale_indices(rng, program_str(&p));
         let shapes: Vec<Shape> = p.functions().iter().map(|f| shape(f)).collect();
         let sh = shape_str(&shapes);
         em.case(&format!("rt/{}", sh), format!("rt {}", ps));
